@@ -1,4 +1,5 @@
 import Ecal.Lemmas.Cascade
+import Ecal.Lemmas.CascadeShared
 import Ecal.Gen.C02
 /-!
 # C02 — waiting on an event returns after its whole cascade, with exactly its errors
@@ -903,5 +904,161 @@ theorem sys_progress {S : Sys} {r i w : Nat} {s : State} {m : Mon} (hr : S.roots
   | notifying w' =>
     obtain ⟨e, hi, hnp, hs⟩ := busy_step hm (w := w') (by simp [hph, Phase.worker])
     exact ⟨e, hi, nonpop e hnp hs⟩
+
+/-! ### the shared observer table, pending callbacks and queue map (`Ecal.Cascade.Conc`) -/
+
+/-- **projection**: a step of cascade `r` in the system with ONE shared observer table, ONE list of
+    pending callbacks and ONE queue map (global append / filter-by-key / erase, `PostEvent` keeping
+    the callbacks of the posting source) is — read through `view r` — exactly a step of
+    `Cascade.step`, and the view of every other root is unchanged. -/
+theorem conc_refines {C C' : Conc} {r : Nat} {e : Event} (hs : Conc.step C r e = some C') :
+    ∃ v v', C.view r = some v ∧ step v e = some v' ∧ C'.view r = some v' ∧
+      ∀ r', r' ≠ r → C'.view r' = C.view r' := by
+  simp only [Conc.step] at hs
+  split at hs
+  · cases hs
+  · rename_i v hv
+    split at hs
+    · split at hs
+      · cases hs
+      · rename_i v' hstep
+        cases hs
+        have hv2 := hv
+        rw [view_eq] at hv2
+        obtain ⟨s0, hs0, hs0v⟩ := Option.map_eq_some_iff.mp hv2
+        have hr : r < C.roots.length := (List.getElem?_eq_some_iff.mp hs0).1
+        have hsf : v.sharedFields = counters C.table C.pending C.queues r := by
+          rw [← hs0v]; rfl
+        refine ⟨v, v', hv, hstep, ?_, ?_⟩
+        · rw [view_eq, shared_roots]
+          have hc := shared_counts_self { C with roots := C.roots.set r v'.local } r e v hsf
+          rw [hc, ← step_shared_fields hstep]
+          simp [List.getElem?_set_self hr, withCounters_local]
+        · intro r' hne
+          rw [view_eq, view_eq, shared_roots, shared_counts_other _ _ _ hne]
+          simp [List.getElem?_set_ne (Ne.symm hne)]
+    · cases hs
+
+/-- every root of a reachable shared system, read through `view`, is a reachable state of the
+    single-cascade transition system — so every theorem of this file holds for each of several
+    cascades in flight on one processor with its shared pump, queue and pool -/
+theorem conc_view_reachable {C : Conc} (h : C.Reachable) {r : Nat} {v : State} (hv : C.view r = some v) :
+    Reachable v := by
+  obtain ⟨w, ff, es, hr⟩ := h
+  let J (C : Conc) : Prop :=
+    (∀ r', C.roots.length ≤ r' → counters C.table C.pending C.queues r' = (0, 0, 0, false, 0, 0, 0)) ∧
+    (∀ r v, C.view r = some v → Reachable v)
+  suffices ∀ (es : List ConcEvent) (C0 : Conc), J C0 → Conc.run C0 es = some C → J C from
+    (this es _ ⟨by intro r' _; simp [Conc.init, counters, cnt], by intro r v hv; simp [Conc.init, Conc.view] at hv⟩ hr).2 r v hv
+  intro es
+  induction es with
+  | nil => intro C0 h0 hr; simp [Conc.run] at hr; exact hr ▸ h0
+  | cons e es ih =>
+    intro C0 h0 hr
+    simp only [Conc.run, List.foldlM_cons] at hr
+    cases hstep : Conc.stepE C0 e with
+    | none => simp [hstep] at hr
+    | some C1 =>
+      simp [hstep] at hr
+      refine ih C1 ?_ hr
+      cases e with
+      | newRoot =>
+        simp only [Conc.stepE] at hstep
+        cases hstep
+        constructor
+        · intro r' hr'
+          apply h0.1
+          simp at hr'
+          omega
+        · intro r v hv
+          rw [view_eq] at hv
+          obtain ⟨s0, hs0, hs0v⟩ := Option.map_eq_some_iff.mp hv
+          by_cases hlt : r < C0.roots.length
+          · have hs0' : C0.roots[r]? = some s0 := by
+              have : (C0.roots ++ [(Cascade.init C0.workers C0.failFirst).local])[r]? = some s0 := hs0
+              rwa [List.getElem?_append_left hlt] at this
+            exact h0.2 r v (by rw [view_eq, hs0']; exact congrArg some hs0v)
+          · have hlen := (List.getElem?_eq_some_iff.mp hs0).1
+            simp at hlen
+            have hreq : r = C0.roots.length := by omega
+            subst hreq
+            have : (C0.roots ++ [(Cascade.init C0.workers C0.failFirst).local])[C0.roots.length]? = some s0 := hs0
+            simp at this
+            have hz := h0.1 C0.roots.length (Nat.le_refl _)
+            have hz' : counters C0.table C0.pending C0.queues C0.roots.length = (0, 0, 0, false, 0, 0, 0) := hz
+            rw [← hs0v, ← this]
+            show Reachable (withCounters _ (counters C0.table C0.pending C0.queues C0.roots.length))
+            rw [hz']
+            exact ⟨C0.workers, C0.failFirst, [], rfl⟩
+      | «at» r e =>
+        simp only [Conc.stepE] at hstep
+        obtain ⟨v0, v1, hv0, hs01, hv1, hoth⟩ := conc_refines hstep
+        have hrlt : r < C0.roots.length := by
+          rw [view_eq] at hv0
+          obtain ⟨s0, hs0, _⟩ := Option.map_eq_some_iff.mp hv0
+          exact (List.getElem?_eq_some_iff.mp hs0).1
+        have hlen : C1.roots.length = C0.roots.length := by
+          simp only [Conc.step] at hstep
+          rw [hv0] at hstep
+          simp only at hstep
+          split at hstep
+          · rw [hs01] at hstep
+            cases hstep
+            rw [shared_roots]
+            simp
+          · cases hstep
+        constructor
+        · intro r' hr'
+          rw [hlen] at hr'
+          have hne : r' ≠ r := by omega
+          have := h0.1 r' hr'
+          simp only [Conc.step] at hstep
+          rw [hv0] at hstep
+          simp only at hstep
+          split at hstep
+          · rw [hs01] at hstep
+            cases hstep
+            rw [shared_counts_other _ _ _ hne]
+            exact this
+          · cases hstep
+        · intro r' v hv
+          by_cases hrr : r' = r
+          · subst hrr
+            rw [hv1] at hv
+            cases hv
+            exact reachable_step (h0.2 r' v0 hv0) hs01
+          · rw [hoth r' hrr] at hv
+            exact h0.2 r' v hv
+
+/-- `errors_exact` + `wait_after_cascade` for a cascade running beside others on the shared pump:
+    its report holds exactly its own failed (event, rule) entries — nothing of another cascade -/
+theorem conc_errors_exact {C : Conc} (h : C.Reachable) {r : Nat} {v : State} (hv : C.view r = some v)
+    (hw : 0 < v.released) :
+    allErrors v = expectedReport v ∧ ∀ m ∈ v.mons, m.phase.finished = true ∧ m.todo = [] := by
+  have hreach := conc_view_reachable h hv
+  refine ⟨errors_exact hreach hw, ?_⟩
+  cases hret : v.waitReturned with
+  | true => exact returned_after_cascade hreach hret
+  | false =>
+    intro m hm
+    have := wait_after_cascade hreach (by simp [step, hw, hret]) m hm
+    exact ⟨this.1, this.2.1⟩
+
+/-- negative witness: a `PostEvent` that does not filter its snapshot by the posting source (not the
+    code, cf. `src_post_filters_by_source`) hands the waiter of ANOTHER, unfinished cascade its
+    callback: root 1 (one monitor outstanding, nothing posted) gets a pending wait callback when
+    root 0 posts. -/
+theorem unfiltered_post_reaches_foreign_waiter :
+    ∃ C v, Conc.run (Conc.init 2 false) [.newRoot, .newRoot, .at 1 .register, .at 1 .regHandler,
+        .at 1 (.addEvent 0 true [1]), .at 0 .regHandler, .at 0 (.addEvent 0 true [1]), .at 0 (.pop 0 0),
+        .at 0 (.ruleReturns 0 true), .at 0 (.taskDone 0)] = some C ∧
+      (C.postEventUnfiltered 0).view 1 = some v ∧ v.dWait = 1 ∧ v.posted = 0 ∧ v.unfinished = 1 ∧
+      (step v (.observerRuns .wait)).isSome = true :=
+  ⟨_, _, rfl, rfl, by decide⟩
+
+example : ∃ C : Conc, C.Reachable ∧ ∃ v, C.view 1 = some v ∧ 0 < v.released ∧ C.roots.length = 2 :=
+  ⟨_, ⟨2, false, [.newRoot, .newRoot, .at 0 .regHandler, .at 0 (.addEvent 0 true [1]), .at 0 (.pop 0 0), .at 1 .register,
+    .at 1 .regHandler, .at 1 (.addEvent 0 true [5]), .at 1 (.pop 1 0), .at 1 (.ruleReturns 0 false), .at 1 (.taskDone 0),
+    .at 1 (.setErrors 0), .at 1 (.errFinish 0), .at 1 .post, .at 1 (.observerRuns .wait)], rfl⟩, _, rfl, by decide⟩
 
 end Ecal.Props.C02
